@@ -8,7 +8,7 @@ import core
 SB = [-128, -127, -100, -65, -64, -1, 0, 1, 2, 63, 64, 100, 126, 127]
 UB = [0, 1, 2, 63, 64, 100, 127, 128, 129, 200, 254, 255]
 OPS_Q = ["lerp", "transition"]
-OPS_F = ["nlerp", "slerp", "xform_lerp"]
+OPS_F = ["nlerp", "slerp", "xform_lerp", "slerp_f"]
 
 
 def tables(ctx, signed):
